@@ -29,7 +29,7 @@ func ruleUnitTable(w *World, r *Report, pfx string) map[string][]int64 {
 		s := ssa.Value(fn.Params[0])
 		units := map[int64]bool{}
 		bad := ""
-		n, over := w.enumPaths(fn, pathOpts{MaxPaths: 50000}, func(p *Path) {
+		n, over := w.enumPaths(fn, pathOpts{MaxPaths: 50000, InlineDepth: 2, Inline: func(_ ssa.CallInstruction, c *ssa.Function) bool { return c.Pkg == w.Decor && c != str }}, func(p *Path) {
 			if bad != "" {
 				return
 			}
@@ -45,10 +45,22 @@ func ruleUnitTable(w *World, r *Report, pfx string) map[string][]int64 {
 			if quo == nil {
 				return
 			}
-			num := stripConv(p.val(quoEv, quo.X).V)
+			numV := p.val(quoEv, quo.X)
+			for {
+				cv, ok := numV.V.(*ssa.Convert)
+				if !ok {
+					break
+				}
+				numV = p.R(Val{cv.X, numV.F, numV.E})
+			}
+			num := numV.V
 			den := p.val(quoEv, quo.Y)
 			dv := den.V
-			if cv, ok := dv.(*ssa.Convert); ok {
+			for {
+				cv, ok := dv.(*ssa.Convert)
+				if !ok {
+					break
+				}
 				dv = p.R(Val{cv.X, den.F, den.E}).V
 			}
 			if num != s {
@@ -64,7 +76,7 @@ func ruleUnitTable(w *World, r *Report, pfx string) map[string][]int64 {
 			lower, upper := int64(1), int64(-1)
 			for _, a := range p.Atoms {
 				c := p.cmpOf(a)
-				if c.X.V != s {
+				if p.R(c.X).V != s {
 					continue
 				}
 				k, ok := constInt(c.Y.V)
@@ -95,9 +107,22 @@ func ruleUnitTable(w *World, r *Report, pfx string) map[string][]int64 {
 			// the suffix is the unit's own name
 			okName := false
 			for _, ev := range p.Events {
-				if c, ok := ev.In.(*ssa.Call); ok && c.Call.StaticCallee() == str {
+				c, ok := ev.In.(*ssa.Call)
+				if !ok {
+					continue
+				}
+				if c.Call.StaticCallee() == str {
 					if k, ok := constInt(p.val(ev, c.Call.Args[0]).V); ok && k == unit {
 						okName = true
+					}
+				}
+				// through fmt.Stringer: the receiver is the unit constant of this size type boxed into an interface
+				if c.Call.IsInvoke() && c.Call.Method.Name() == "String" {
+					rv := p.val(ev, c.Call.Value)
+					if mi, ok := rv.V.(*ssa.MakeInterface); ok && types.Identical(mi.X.Type(), fn.Params[0].Type()) {
+						if k, ok := constInt(p.R(Val{mi.X, rv.F, rv.E}).V); ok && k == unit {
+							okName = true
+						}
 					}
 				}
 			}
@@ -214,6 +239,29 @@ func (w *World) divisorNonZero(fn *ssa.Function, q *ssa.BinOp) (string, bool) {
 		}
 		if all {
 			return "unit: phi of non-zero constants", true
+		}
+	}
+	// call of a module function that returns only non-zero constants (unit selection helper)
+	if c, ok := src.(*ssa.Call); ok && c.Call.StaticCallee() != nil && w.modSet[c.Call.StaticCallee()] {
+		all, n := true, 0
+		for _, b := range c.Call.StaticCallee().Blocks {
+			if ret, ok := b.Instrs[len(b.Instrs)-1].(*ssa.Return); ok {
+				for _, rv := range ret.Results {
+					n++
+					vals := []ssa.Value{rv}
+					if phi, ok := rv.(*ssa.Phi); ok {
+						vals = phi.Edges
+					}
+					for _, v := range vals {
+						if k, ok := constInt(v); !ok || k == 0 {
+							all = false
+						}
+					}
+				}
+			}
+		}
+		if all && n > 0 {
+			return "unit helper returns only non-zero constants", true
 		}
 	}
 	// time.Since(start): non-zero by the monotonic clock (table entry)
@@ -495,11 +543,40 @@ func ruleFrozen(w *World, r *Report, pfx string) {
 		if fn.Pkg != w.Decor {
 			continue
 		}
-		isElapsed := fn.Parent() != nil && rootFn(fn).Name() == "NewElapsed"
-		isAvgSpeed := fn.Parent() == nil && fn.Name() == "Decor" && fn.Signature.Recv() != nil && typeName(fn.Signature.Recv().Type()) == "decor.averageSpeed"
-		if !isElapsed && !isAvgSpeed {
+		// candidates: functions that read Statistics.Completed and cache a string (store of a string
+		// into a captured cell or a struct field of their receiver)
+		readsCompleted, cachesString := false, false
+		for _, b := range fn.Blocks {
+			for _, in := range b.Instrs {
+				switch x := in.(type) {
+				case *ssa.Field:
+					if f, ok := fieldOf(x); ok && f.Owner == tStat && f.Name == "Completed" {
+						readsCompleted = true
+					}
+				case *ssa.UnOp:
+					if f, ok := loadedField(x); ok && f.Owner == tStat && f.Name == "Completed" {
+						readsCompleted = true
+					}
+				case *ssa.Store:
+					if !types.Identical(x.Val.Type(), types.Typ[types.String]) {
+						continue
+					}
+					if _, ok := x.Addr.(*ssa.FreeVar); ok {
+						cachesString = true
+					}
+					if fa, ok := x.Addr.(*ssa.FieldAddr); ok {
+						if _, isParam := w.origin(fa.X).(*ssa.Parameter); isParam {
+							cachesString = true
+						}
+					}
+				}
+			}
+		}
+		if !readsCompleted || !cachesString {
 			continue
 		}
+		isAvgSpeed := fn.Signature.Recv() != nil && typeName(fn.Signature.Recv().Type()) == "decor.averageSpeed"
+		isElapsed := !isAvgSpeed
 		n++
 		bad := ""
 		sawStore, sawKeep := false, false
@@ -513,11 +590,16 @@ func ruleFrozen(w *World, r *Report, pfx string) {
 				if !ok {
 					continue
 				}
-				if _, isFV := st.Addr.(*ssa.FreeVar); isFV && isElapsed {
+				if !types.Identical(st.Val.Type(), types.Typ[types.String]) {
+					continue
+				}
+				if _, isFV := st.Addr.(*ssa.FreeVar); isFV {
 					stores++
 				}
-				if f, ok := fieldOf(st.Addr); ok && f.Name == "msg" && isAvgSpeed {
-					stores++
+				if fa, ok := st.Addr.(*ssa.FieldAddr); ok {
+					if _, isParam := w.origin(fa.X).(*ssa.Parameter); isParam {
+						stores++
+					}
 				}
 			}
 			notCompleted := p.hasBool(-1, false, loadOf(tStat, "Completed"))
@@ -546,38 +628,52 @@ func ruleFrozen(w *World, r *Report, pfx string) {
 // ruleTimeProducers: h/m/s components are (d / unit) % 60 with the right units.
 func ruleTimeProducers(w *World, r *Report, pfx string) {
 	rule := pfx + ".T-HMS"
-	root := w.Func("decor.chooseTimeProducer")
-	if root == nil {
-		r.Unresolved("anchor", "decor.chooseTimeProducer", "not found")
-		return
+	var cands []*ssa.Function
+	for _, fn := range w.ModFns {
+		if fn.Pkg != w.Decor || fn.Signature.Params().Len() != 1 || fn.Signature.Results().Len() != 1 {
+			continue
+		}
+		if typeName(fn.Signature.Params().At(0).Type()) == "time.Duration" && types.Identical(fn.Signature.Results().At(0).Type(), types.Typ[types.String]) && fn.Signature.Recv() == nil {
+			cands = append(cands, fn)
+		}
 	}
 	units := map[int64]string{3600e9: "h", 60e9: "m", 1e9: "s"}
 	n := 0
-	for _, fn := range root.AnonFuncs {
+	for _, fn0 := range cands {
 		comps := map[string]int{}
+		// components may be computed by a shared helper
+		fns := []*ssa.Function{fn0}
+		for h := range w.unit(fn0) {
+			if h != fn0 {
+				fns = append(fns, h)
+			}
+		}
+		fn := fn0
 		bad := ""
-		for _, b := range fn.Blocks {
-			for _, in := range b.Instrs {
-				rem, ok := in.(*ssa.BinOp)
-				if !ok || rem.Op != token.REM {
-					continue
+		for _, ff := range fns {
+			for _, b := range ff.Blocks {
+				for _, in := range b.Instrs {
+					rem, ok := in.(*ssa.BinOp)
+					if !ok || rem.Op != token.REM {
+						continue
+					}
+					k, ok := constInt(rem.Y)
+					if !ok || k != 60 {
+						bad = "a time component is not taken modulo 60"
+						continue
+					}
+					q, ok := stripConv(rem.X).(*ssa.BinOp)
+					if !ok || q.Op != token.QUO || q.X != ssa.Value(ff.Params[0]) {
+						bad = "a time component is not (duration / unit) % 60"
+						continue
+					}
+					u, ok := constInt(q.Y)
+					if !ok || units[u] == "" {
+						bad = "a time component divides by something other than hour / minute / second"
+						continue
+					}
+					comps[units[u]]++
 				}
-				k, ok := constInt(rem.Y)
-				if !ok || k != 60 {
-					bad = "a time component is not taken modulo 60"
-					continue
-				}
-				q, ok := stripConv(rem.X).(*ssa.BinOp)
-				if !ok || q.Op != token.QUO || q.X != ssa.Value(fn.Params[0]) {
-					bad = "a time component is not (duration / unit) % 60"
-					continue
-				}
-				u, ok := constInt(q.Y)
-				if !ok || units[u] == "" {
-					bad = "a time component divides by something other than hour / minute / second"
-					continue
-				}
-				comps[units[u]]++
 			}
 		}
 		if len(comps) == 0 {
